@@ -254,9 +254,28 @@ def shrink_candidates(inp):
 MANIFEST = {
     "level_claimed": {
         "category": "proof",
-        "text": "TODO",
+        "text": ("Machine-checked (Coq 8.16, no axioms) theorems over an executable model of the fee-deduct + dev-gas payout ante "
+                 "step and of the three fee-share registry handlers: C18_tx_satisfies_property / C18_history_satisfies_property "
+                 "state, for EVERY state, transaction and history (any fee coins incl. 1-2 units, any DeveloperShares in [0,1], any "
+                 "AllowedDenoms list incl. repeats, any number/mix of registered and unregistered executes, any register/update/"
+                 "cancel attempt by any signer), that payouts go only to the registered withdrawers of top-level executes, are an "
+                 "equal split, total at most share x allowed fee + one unit per recipient and denom (C18_payout_bound proves the "
+                 "exact n/2 of banker's rounding), never exceed the tx's own fee + n, are zero when disabled/unregistered/in other "
+                 "denoms, come out of the collector (delta = fee - payouts, conservation), and that registry entries change only "
+                 "by the contract's admin (creator when no admin) or as self-registration of a factory contract. The decorator "
+                 "order, the payout formula text, the once-per-coin rule of getAllowedFees, the blocked fee collector and the "
+                 "guard-before-write order of the handlers are re-extracted from /repo on every run and re-proved "
+                 "(Gen/C18Oblig.v); the model is run against real DeliverTx traces (fee-collector / withdrawer deltas, registry, "
+                 "accept/reject class) and the proved-sound checker Pb_tx is evaluated on those traces."),
         "design_ref": "DESIGN.md §5 C18",
     },
-    "level_note": "TODO",
-    "technique": "Coq proof + generated ante-chain facts + differential correspondence on DeliverTx traces",
+    "level_note": ("Hypotheses of the theorems: fee collector blocked and fee coin counted once (generated facts), share in [0,1] "
+                   "(enforced by the modelled Params.Validate along histories), non-negative fee amounts (sdk.Coins invariant). "
+                   "Trusted: Coq kernel + vm_compute, Lib/Dec.v, the go/ast extractor harness/gen/c18, the Go driver's "
+                   "canonicalisation (address ids, error enum), this plugin's rendering. Not modelled: wasm VM (execute success is "
+                   "predicted from payload flag / existence / reflect owner), distribution's sweep of the collector (balances "
+                   "re-read at block boundaries), registry messages signed by contracts through wasm dispatch (covered by the "
+                   "theorems, not driven), param/admin changes inside a tx. The property's allowance (+1 unit per recipient) lets "
+                   "the total exceed the fee (fee 3, two recipients: 4 paid); such a tx is rejected when the collector cannot cover it."),
+    "technique": "Coq proof (arithmetic bound, invariant over message lists and histories) + generated facts + differential correspondence on DeliverTx traces",
 }
